@@ -140,3 +140,31 @@ Theorem C04_from_iter_is_in_input_order :
   Z.of_nat (length l) < msb P -> fob_oinv P (fst (fob_from_list P l w)).
 Proof. exact fob_from_list_order. Qed.
 Print Assumptions C04_from_iter_is_in_input_order.
+
+(** the same for FuturesOrdered (unbounded): the indices 0 .. n-1 are spread over the groups *)
+Theorem C04_unbounded_from_iter_is_in_input_order :
+  forall (P : params), params_ok P -> forall (l : list child) (w : world),
+  winv (cnt []) None w -> Z.of_nat (length l) < msb P -> fo_oinv P (fst (fo_from_list P l w)).
+Proof. exact fo_from_list_order. Qed.
+Print Assumptions C04_unbounded_from_iter_is_in_input_order.
+
+(** under the structural invariant (every reachable state) the inner push always adds the new
+    index, so push_back / push_front of FuturesOrdered keep the queue order unconditionally *)
+Theorem C04_unbounded_push_keeps_queue_order_unconditionally :
+  forall (P : params), params_ok P -> forall (front : bool) (q : fo) (c : child) (w : world),
+  winv (cnt (blks (groups (fu_inner q)))) None w -> fu_ok false (fu_inner q) ->
+  fo_oinv P q -> Z.of_nat (length (held (run_fu (fu_inner q)) (fu_ord q))) + 1 < msb P ->
+  fo_oinv P (fst (fo_push P front q c w)).
+Proof. exact fo_push_order_ok. Qed.
+Print Assumptions C04_unbounded_push_keeps_queue_order_unconditionally.
+
+(** every history: if at every moment fewer than 2^(w-1) - 1 futures are held (for
+    buffered_ordered / try_buffered_ordered: the limit is below that), then at every moment the
+    queue-order invariant holds — for FuturesOrderedBounded, FuturesOrdered and the queue inside
+    the ordered adapters, whatever the start values of the counters *)
+From FB Require Import Step StepProofs Reach OrderReach.
+Theorem C04_queue_order_in_every_reachable_state :
+  forall (P : params), params_ok P -> forall (ops : list op),
+  (forall n, small P (st_coll (reach P (firstn n ops)))) -> ord_inv P (st_coll (reach P ops)).
+Proof. exact reachable_order. Qed.
+Print Assumptions C04_queue_order_in_every_reachable_state.
